@@ -107,7 +107,8 @@ def check_C20(c):
     c.bounds = {'plans_exported': len(plans) + len(near), 'plans_near_default_all_replayed': len(near), 'plans_replayed': len(sample) + len(must)}
     c.assumptions += ['the stage semantics are the library functions (each covered by its own property); the specification contributes '
                       'order, arguments, separators, loops and exit status',
-                      'F17 (--reify-edges with --reify-attributes is not a fixed point on inverted attributes) is an open known finding',
+                      'F17 (--reify-edges with --reify-attributes is not a fixed point on inverted attributes), F19 and F23 (--check metadata describe the graph '
+                      'before later stages / an inverted reified attribute) are open known findings',
                       'random keys are judged on exit status only']
 
 
